@@ -146,7 +146,18 @@ def Mon.checkInput (m : Mon) (frame : Str) (evs : List Ev) : Option String :=
             else none
           | none => some "request-to-unknown-agent"
         | _ =>
-          if evs.any (fun e => match e with | .find n' _ none => n' == n | _ => false) then none
+          if evs.any (fun e => match e with | .find n' _ none => n' == n | _ => false) then
+            -- nobody answers for the node: the peer is told so (`@unlinked(node:..,lane:..)@nodeNotFound`), except for
+            -- a command, which is dropped silently
+            let frames := evs.filterMap fun e => match e with | .peer f => some f | _ => none
+            if k = .command then (if frames.isEmpty then none else some "unexpected-frame")
+            else
+              match frames with
+              | [f] =>
+                if peel f == .env .unlinked n l Generated.Env.nodeNotFoundTag then none
+                else some "not-found-answer-changed"
+              | [] => some "not-found-answer-missing"
+              | _ => some "not-found-answer-duplicated"
           else some "request-dropped"
     else
       let expected := sortNat ((m.dls.filter fun d => !d.detached && d.node == n && d.lane == l).map (·.id))
